@@ -59,7 +59,7 @@ def set_path(v, path, new):
 
 
 def run(tier, seed, rng):
-    ng = 60 if tier == 'quick' else 500
+    ng = 60 if tier == 'quick' else 2500
     feats = lambda g: dict(move=True, em=True, clsopts=True)
     groups, meta = [], []
     for gid in range(ng):
@@ -123,7 +123,7 @@ def run(tier, seed, rng):
         if 'eq_other_class' in res:
             want['eq_other_class'] = [False, True]
             dist['other_class'] += 1
-        if 'changed' in res:
+        if 'changed' in res and res['changed'] != 'SAME':
             want['changed'] = [False, True, False]
             dist['changed'] += 1
         bp = res.get('built_vs_parsed')
